@@ -332,6 +332,15 @@ def v11(rep, rule="V11"):
                 elif e is not None:
                     tests.append(e)
             conj(cond)
+            # `b > j` is `j < b`: bring the index to the left
+            flip = {"<": ">", ">": "<", "<=": ">=", ">=": "<="}
+            norm_tests = []
+            for t in tests:
+                if t["k"] == "BinaryOperator" and t["op"] in flip and (strip(t["c"][1]) or {}).get("n") == jv and \
+                        (strip(t["c"][0]) or {}).get("n") != jv:
+                    t = dict(t, op=flip[t["op"]], c=[t["c"][1], t["c"][0]])
+                norm_tests.append(t)
+            tests = norm_tests
             t0 = [t for t in tests if t["k"] == "BinaryOperator" and (strip(t["c"][0]) or {}).get("n") == jv and t["op"] in ("<", "<=", ">", ">=")]
             if len(t0) != 1 or a is None:
                 raise AnalysisBroken("%s:%d: the bound of the copying loop is not a comparison of its index" % (name, lp["l"]))
